@@ -14,8 +14,8 @@ void phosg_read_all_fd(vstr* ret, int fd)
 C14_ENTRY C14_FRESH_SRC C14_RET(ret, g_src_len)
 C14_IOERR
 __CPROVER_ensures((verif_exc != 0) == (g_err_seen != 0))                       /* throws iff read() reported an error */
-__CPROVER_ensures(verif_exc == 0 ==> g_eof_seen)                               /* returns only after end-of-file was reported */
 __CPROVER_ensures(verif_exc == 0 ==> ret->size == g_src_len)                   /* every byte the source delivers, no more */
+__CPROVER_ensures(verif_exc == 0 ==> g_eof_seen)                               /* returns only after end-of-file was reported */
 __CPROVER_ensures((verif_exc == 0 && g_vk < ret->size) ==> (uint8_t)ret->data[g_vk] == g_sval)
 __CPROVER_assigns(C14_SRC_ASSIGNS, __CPROVER_object_whole(g_vsv_buf), g_cval, g_it_next, g_it_prefix, ret->size, __CPROVER_object_whole(ret->data));
 
@@ -23,8 +23,8 @@ __CPROVER_assigns(C14_SRC_ASSIGNS, __CPROVER_object_whole(g_vsv_buf), g_cval, g_
 void phosg_read_all_file(vstr* ret, C14_FILE* f)
 C14_ENTRY C14_FRESH_SRC C14_RET(ret, g_src_len)
 C14_IOERR
-__CPROVER_ensures(verif_exc == 0 ==> g_eof_seen)
 __CPROVER_ensures(verif_exc == 0 ==> ret->size == g_src_len)
+__CPROVER_ensures(verif_exc == 0 ==> g_eof_seen)
 __CPROVER_ensures((verif_exc == 0 && g_vk < ret->size) ==> (uint8_t)ret->data[g_vk] == g_sval)
 __CPROVER_assigns(C14_SRC_ASSIGNS, __CPROVER_object_whole(g_vsv_buf), g_cval, g_it_next, g_it_prefix, ret->size, __CPROVER_object_whole(ret->data));
 
